@@ -139,6 +139,114 @@ pub fn duplicate_member_texts(text: &str) -> Vec<String> {
     out
 }
 
+/// Texts in which one member of one object (at any depth; a budget of them spread over the document) gets a SIBLING
+/// whose name differs from its own only in letter case, carrying another value of the same kind, written right
+/// AFTER it or right BEFORE it.  Two different names: nothing is repeated, every channel - the tree ones included -
+/// must give the same answer, whichever member a reader happens to meet last.
+pub fn case_variant_member_texts(text: &str) -> Vec<String> {
+    let v: Value = match serde_json::from_str(text) {
+        Ok(v) => v,
+        Err(_) => return vec![],
+    };
+    // paths of all object members whose name has a letter
+    fn collect(v: &Value, path: &mut Vec<String>, out: &mut Vec<Vec<String>>) {
+        match v {
+            Value::Object(o) => {
+                for (k, x) in o {
+                    path.push(k.clone());
+                    if k.chars().any(|c| c.is_ascii_alphabetic()) {
+                        out.push(path.clone());
+                    }
+                    collect(x, path, out);
+                    path.pop();
+                }
+            }
+            Value::Array(a) => {
+                for (i, x) in a.iter().enumerate() {
+                    path.push(format!("#{i}"));
+                    collect(x, path, out);
+                    path.pop();
+                }
+            }
+            _ => {}
+        }
+    }
+    let mut all = vec![];
+    collect(&v, &mut vec![], &mut all);
+    let budget = 10usize;
+    let stride = (all.len() / budget).max(1);
+    let chosen: Vec<Vec<String>> = all.iter().step_by(stride).take(budget).cloned().collect();
+    fn other(x: &Value) -> Value {
+        match x {
+            Value::String(t) if !t.is_empty() => {
+                let mut c: Vec<char> = t.chars().collect();
+                c[0] = if c[0] == '0' { '1' } else { '0' };
+                json!(c.into_iter().collect::<String>())
+            }
+            Value::String(_) => json!("x"),
+            Value::Number(_) => json!(7),
+            Value::Array(_) => json!([]),
+            Value::Object(_) => json!({}),
+            Value::Bool(b) => json!(!b),
+            Value::Null => json!(0),
+        }
+    }
+    // writer: the document as compact text, with `extra` written next to the member at `target`
+    fn write(v: &Value, path: &mut Vec<String>, target: &[String], after: bool, out: &mut String) {
+        match v {
+            Value::Object(o) => {
+                out.push('{');
+                let mut first = true;
+                for (k, x) in o {
+                    path.push(k.clone());
+                    let here = path.as_slice() == target;
+                    let twin = if k.chars().any(|c| c.is_ascii_lowercase()) { k.to_uppercase() } else { k.to_lowercase() };
+                    let twin_text = format!("{}:{}", serde_json::to_string(&twin).unwrap(), other(x));
+                    if !first {
+                        out.push(',');
+                    }
+                    first = false;
+                    if here && !after {
+                        out.push_str(&twin_text);
+                        out.push(',');
+                    }
+                    out.push_str(&serde_json::to_string(k).unwrap());
+                    out.push(':');
+                    write(x, path, target, after, out);
+                    if here && after {
+                        out.push(',');
+                        out.push_str(&twin_text);
+                    }
+                    path.pop();
+                }
+                out.push('}');
+            }
+            Value::Array(a) => {
+                out.push('[');
+                for (i, x) in a.iter().enumerate() {
+                    if i > 0 {
+                        out.push(',');
+                    }
+                    path.push(format!("#{i}"));
+                    write(x, path, target, after, out);
+                    path.pop();
+                }
+                out.push(']');
+            }
+            other => out.push_str(&other.to_string()),
+        }
+    }
+    let mut out = vec![];
+    for target in &chosen {
+        for after in [true, false] {
+            let mut t = String::new();
+            write(&v, &mut vec![], target, after, &mut t);
+            out.push(t);
+        }
+    }
+    out
+}
+
 fn channels_x<T: DeserializeOwned + PartialEq + Debug>(text: &str, extra: ExtraChannel<T>) -> (bool, Option<String>, Option<T>) {
     let base: Result<Result<T, String>, String> = parse_via(text, "str");
     let base_ok = matches!(&base, Ok(Ok(_)));
@@ -200,6 +308,26 @@ fn channels_x<T: DeserializeOwned + PartialEq + Debug>(text: &str, extra: ExtraC
                 if !same && agree {
                     agree = false;
                     detail = Some(format!("repeated member, channel {ch}: str {} / this {} / text {}",
+                        if matches!(reference, Ok(Ok(_))) { "accepted" } else { "rejected" },
+                        if matches!(r, Ok(Ok(_))) { "accepted" } else { "rejected" }, t.chars().take(200).collect::<String>()));
+                }
+            }
+        }
+    }
+    // members with a sibling that differs in letter case only: every channel, the tree ones included
+    if agree {
+        for t in case_variant_member_texts(text) {
+            let reference: Result<Result<T, String>, String> = parse_via(&t, "str");
+            for ch in CHANNELS {
+                let r: Result<Result<T, String>, String> = parse_via(&t, ch);
+                let same = match (&reference, &r) {
+                    (Ok(Ok(a)), Ok(Ok(b))) => a == b,
+                    (Ok(Err(_)), Ok(Err(_))) => true,
+                    _ => false,
+                };
+                if !same && agree {
+                    agree = false;
+                    detail = Some(format!("member with a sibling differing in letter case, channel {ch}: str {} / this {} / text {}",
                         if matches!(reference, Ok(Ok(_))) { "accepted" } else { "rejected" },
                         if matches!(r, Ok(Ok(_))) { "accepted" } else { "rejected" }, t.chars().take(200).collect::<String>()));
                 }
@@ -764,9 +892,11 @@ pub fn pred_doc_nest(fields: &[String], mat: &str, ts: &str, nest: &str) -> Valu
                     json!([{"uri": "git+https://example.com/r", "digest": {"sha1": "aBc0D9", "sha256": "ABCDEF"}}, {}])
                 }
             }
-            "env" => json!({"A": "b"}),
-            "command" => json!(["cc", "-c"]),
-            "byproducts" => json!({"return-value": 0, "stdout": "o", "stderr": "", "extra": "x"}),
+            // (strings with the characters encoders treat specially: control characters, quote, backslash, DEL,
+            // non-ASCII, beyond the basic plane)
+            "env" => json!({"A": "b", "L\n\u{e9}": "v\n\t\u{1}\"\\\u{7f}\u{e9}\u{1f600}"}),
+            "command" => json!(["cc", "-c", "a\tb", "q\"\\"]),
+            "byproducts" => json!({"return-value": 0, "stdout": "o\nline two\r\n\u{1b}[0m", "stderr": "", "extra": "x\n"}),
             "builder" => json!({"id": "https://example.com/builder"}),
             "recipe" if nest != "full" => json!({"type": "https://example.com/recipe"}),
             "metadata" if nest == "empty" => json!({"completeness": {}}),
